@@ -37,7 +37,7 @@ func VerifyFunc(P *Program, fn *ssa.Function, spec *FuncSpec, prop string) (ex *
 		}
 	}()
 	ex.numberSites(fn)
-	st := &State{cells: map[*ssa.Alloc]*Val{}, regs: map[ssa.Value]*Val{}, heap: map[string]*Term{}, loops: map[string]*loopVisit{}, held: map[string]bool{}, ghost: map[string]*Val{}, defers: map[int][]deferRec{}}
+	st := &State{cells: map[*ssa.Alloc]*Val{}, regs: map[ssa.Value]*Val{}, heap: map[string]*Term{}, loops: map[string]*loopVisit{}, held: map[string]bool{}, locks: map[string]int{}, ghost: map[string]*Val{}, defers: map[int][]deferRec{}}
 	alloc0 := ex.allocArr(st)
 	st.assume(Not(Select(alloc0, IntLit(0))))
 	fr := &Frame{id: 0, fn: fn, spec: spec, subst: ex.env.subst}
